@@ -194,15 +194,22 @@ impl<'a> LaneInfo<'a> {
 struct LaneFrames<'a> {
     frames: Vec<&'a Frame>,
     reqs: Vec<&'a Req>,
+    /// Requests made under the same routing id by earlier attachments of the connection (the runtime cannot
+    /// tell them from this attachment's: they may be answered here). Used only where requests justify frames.
+    prior: Vec<&'a Req>,
 }
 
-fn split_by_lane<'a>(frames: &'a [Frame], reqs: &'a [Req]) -> BTreeMap<String, LaneFrames<'a>> {
+fn split_by_lane<'a>(frames: &'a [Frame], reqs: &'a [Req], prior: &'a [Req]) -> BTreeMap<String, LaneFrames<'a>> {
     let mut m: BTreeMap<String, LaneFrames<'a>> = BTreeMap::new();
+    let new = || LaneFrames { frames: vec![], reqs: vec![], prior: vec![] };
     for f in frames {
-        m.entry(f.lane.clone()).or_insert_with(|| LaneFrames { frames: vec![], reqs: vec![] }).frames.push(f);
+        m.entry(f.lane.clone()).or_insert_with(new).frames.push(f);
     }
     for r in reqs {
-        m.entry(r.lane.clone()).or_insert_with(|| LaneFrames { frames: vec![], reqs: vec![] }).reqs.push(r);
+        m.entry(r.lane.clone()).or_insert_with(new).reqs.push(r);
+    }
+    for r in prior {
+        m.entry(r.lane.clone()).or_insert_with(new).prior.push(r);
     }
     m
 }
@@ -266,6 +273,8 @@ struct SView {
     frames: Vec<Frame>,
     end: Option<ReaderEnd>,
     reqs: Vec<Req>,
+    /// Requests of earlier attachments under the same routing id.
+    prior_reqs: Vec<Req>,
     completion: Option<(u64, Option<DisconnectionReason>)>,
 }
 
@@ -317,9 +326,20 @@ pub fn check_all(obs: &Obs, out: &mut CaseOut) -> Summary {
         .map(|s| {
             let l = s.log.lock();
             let r = s.reqs.lock();
-            SView { frames: l.frames.clone(), end: l.end.clone(), reqs: r.reqs.clone(), completion: *s.completion.lock() }
+            SView { frames: l.frames.clone(), end: l.end.clone(), reqs: r.reqs.clone(), prior_reqs: vec![], completion: *s.completion.lock() }
         })
         .collect();
+    let mut views = views;
+    for si in 0..views.len() {
+        let mut prior = vec![];
+        for sj in 0..si {
+            if obs.sessions[sj].id == obs.sessions[si].id {
+                prior.extend(views[sj].reqs.iter().cloned());
+            }
+        }
+        views[si].prior_reqs = prior;
+    }
+    let views = views;
 
     // ---- per session, per lane name: protocol state machine, bodies, replicas
     for (si, s) in obs.sessions.iter().enumerate() {
@@ -327,7 +347,7 @@ pub fn check_all(obs: &Obs, out: &mut CaseOut) -> Summary {
         sum.frames += v.frames.len() as u64;
         out.events += v.frames.len() as u64;
         let is_probe = s.is_probe;
-        let by_lane = split_by_lane(&v.frames, &v.reqs);
+        let by_lane = split_by_lane(&v.frames, &v.reqs, &v.prior_reqs);
         let reader_alive_at_q = obs.quiescent.is_some() && v.end.as_ref().map_or(true, |e| e.ticket() > q) && s.attached_t1.is_some();
         let closed_by_runtime = match &v.end {
             Some(ReaderEnd::Closed(t)) => Some(*t),
@@ -346,6 +366,9 @@ pub fn check_all(obs: &Obs, out: &mut CaseOut) -> Summary {
 
         for (lane, lf) in &by_lane {
             let li = lane_by_name.get(lane.as_str()).map(|i| &lanes[*i]);
+            // A sync requested under this routing id by an earlier attachment may be answered here, in part
+            // (what the lane sent while the connection was not attached is gone): a facet of the signatures.
+            let carried = if lf.prior.iter().any(|r| r.kind == ReqKind::Sync) { "/sync-carried-over-reattachment" } else { "" };
             let unknown = li.is_none();
             let kind = li.map(|l| l.spec.kind.name()).unwrap_or("unknown");
             let mut open = false;
@@ -373,10 +396,10 @@ pub fn check_all(obs: &Obs, out: &mut CaseOut) -> Summary {
             let mut extra_keys: Vec<Value> = vec![];
 
             for (fi, f) in lf.frames.iter().enumerate() {
-                let links_started = started_before(&lf.reqs, ReqKind::Link, f.ticket);
-                let syncs_started = started_before(&lf.reqs, ReqKind::Sync, f.ticket);
-                let unlinks_started = started_before(&lf.reqs, ReqKind::Unlink, f.ticket);
-                let cmds_started = started_before(&lf.reqs, ReqKind::Command, f.ticket);
+                let links_started = started_before(&lf.reqs, ReqKind::Link, f.ticket) + started_before(&lf.prior, ReqKind::Link, f.ticket);
+                let syncs_started = started_before(&lf.reqs, ReqKind::Sync, f.ticket) + started_before(&lf.prior, ReqKind::Sync, f.ticket);
+                let unlinks_started = started_before(&lf.reqs, ReqKind::Unlink, f.ticket) + started_before(&lf.prior, ReqKind::Unlink, f.ticket);
+                let cmds_started = started_before(&lf.reqs, ReqKind::Command, f.ticket) + started_before(&lf.prior, ReqKind::Command, f.ticket);
                 let next_kind = lf.frames.get(fi + 1).map(|n| n.kind.name()).unwrap_or("none");
                 if links_started + syncs_started + unlinks_started + cmds_started == 0 {
                     out.violation("C04", format!("frame-for-unaddressed-lane/{}", f.kind.name()), "a frame arrived for a lane name this remote never addressed", json!({"lane": lane, "frame": f.kind.name()}));
@@ -429,11 +452,11 @@ pub fn check_all(obs: &Obs, out: &mut CaseOut) -> Summary {
                             out.violation("C04", format!("synced-unmatched/{kind}"), "synced received although this remote has no unanswered sync request", json!({"lane": lane, "synced_seen": synced_seen, "sync_requests": syncs_started}));
                         }
                         // C03: consistent snapshot. Window = [start of the matching sync request, receipt of synced].
-                        let sync_reqs: Vec<&&Req> = lf.reqs.iter().filter(|r| r.kind == ReqKind::Sync).collect();
+                        let sync_reqs: Vec<&&Req> = lf.prior.iter().chain(lf.reqs.iter()).filter(|r| r.kind == ReqKind::Sync).collect();
                         let t_q = sync_reqs.get(synced_seen - 1).map(|r| r.t0);
                         // The statement is about a remote that syncs; a remote that also asks to unlink while
                         // the answer is under way discards (by its own request) part of that answer.
-                        let raced = t_q.map_or(true, |t_q| lf.reqs.iter().any(|r| r.kind == ReqKind::Unlink && r.t0 > t_q && r.t0 < f.ticket));
+                        let raced = t_q.map_or(true, |t_q| lf.prior.iter().chain(lf.reqs.iter()).any(|r| r.kind == ReqKind::Unlink && r.t0 > t_q && r.t0 < f.ticket));
                         if raced {
                             out.count("sync-window-skipped-unlink-raced");
                         } else if f.ticket < q {
@@ -444,7 +467,7 @@ pub fn check_all(obs: &Obs, out: &mut CaseOut) -> Summary {
                             sum.sync_windows += 1;
                             match li.spec.kind {
                                 LK::Value => match &last_body {
-                                    None => out.violation("C03", "synced-without-value/value", "synced received for a value lane although no value was delivered on this link", json!({"lane": lane})),
+                                    None => out.violation("C03", if carried.is_empty() { "synced-without-value/value".to_string() } else { "partial-sync-answer-after-reattachment/value".to_string() }, "synced received for a value lane although no value was delivered on this link", json!({"lane": lane})),
                                     Some(b) => {
                                         if let Some(&i) = li.version_of.get(b) {
                                             // version i was the lane's value during [adopted_i, adopted_{i+1}]
@@ -453,7 +476,7 @@ pub fn check_all(obs: &Obs, out: &mut CaseOut) -> Summary {
                                             if !(lo <= t_s && hi >= t_q) {
                                                 out.violation(
                                                     "C03",
-                                                    format!("snapshot-outside-window/value/{}", if hi < t_q { "stale" } else { "future" }),
+                                                    if carried.is_empty() { format!("snapshot-outside-window/value/{}", if hi < t_q { "stale" } else { "future" }) } else { "partial-sync-answer-after-reattachment/value".to_string() },
                                                     "at synced the remote's value is not a value the lane held between the sync request and that instant",
                                                     json!({"lane": lane, "value": show(b), "held": [lo, hi], "window": [t_q, t_s]}),
                                                 );
@@ -487,6 +510,7 @@ pub fn check_all(obs: &Obs, out: &mut CaseOut) -> Summary {
                                             out.violation(
                                                 "C03",
                                                 match li.keys.get(k).map_or("coherent", key_fact) {
+                                                    _ if !carried.is_empty() => "partial-sync-answer-after-reattachment/map".to_string(),
                                                     "coherent" => format!("snapshot-outside-window/map/{class}/link-requested={}/key=coherent", links_started > 0),
                                                     fact => format!("snapshot-outside-window/map/key={fact}"),
                                                 },
@@ -836,7 +860,7 @@ pub fn check_all(obs: &Obs, out: &mut CaseOut) -> Summary {
                                 let bad_key = truth.keys().chain(rep.keys()).filter(|k| truth.get(*k) != rep.get(*k)).filter_map(|k| li.keys.get(*k)).map(key_fact).find(|f| *f != "coherent").unwrap_or("coherent");
                                 out.violation(
                                     "C02",
-                                    if bad_key == "coherent" { format!("replica-diverged/{class}/synced={synced_at_q}/key=coherent") } else { format!("replica-diverged/key={bad_key}") },
+                                    if !carried.is_empty() && synced_at_q { "replica-diverged/after-partial-sync-answer-after-reattachment".to_string() } else if bad_key == "coherent" { format!("replica-diverged/{class}/synced={synced_at_q}/key=coherent") } else { format!("replica-diverged/key={bad_key}") },
                                     "the agent is quiescent and the remote has drained its channel, but applying the operations it received does not give the lane's map",
                                     json!({"lane": lane, "replica": format!("{rep:?}"), "lane_map": format!("{truth:?}"), "keys": format!("{:?}", li.keys)}),
                                 );
@@ -973,6 +997,36 @@ pub fn check_all(obs: &Obs, out: &mut CaseOut) -> Summary {
                                 out.violation("C04", "completion/pruned-without-timeout", "a remote was pruned although the prune delay is effectively infinite", json!({"at": t}));
                             }
                             out.count("completion-remote-timed-out");
+                            // C03: "a remote that syncs at any moment": a remote may only be removed for inactivity after
+                            // it has been without a link for the whole prune delay (virtual time, exact under the paused
+                            // clock). One that is removed earlier and whose sync request is then never answered was denied
+                            // its session.
+                            if let (Some(prune_ms), Some(tv)) = (obs.cfg.prune_ms, *s.completion_v.lock()) {
+                                let idle = tv.saturating_duration_since(s.attached_v);
+                                if idle < std::time::Duration::from_millis(prune_ms) {
+                                    out.count("pruned-before-delay");
+                                    for (lane, lf) in &by_lane {
+                                        let Some(li) = lane_by_name.get(lane.as_str()).map(|i| &lanes[*i]) else { continue };
+                                        let asked = lf.reqs.iter().filter(|r| r.kind == ReqKind::Sync).last();
+                                        if let Some(asked) = asked {
+                                            let unlinked_after = lf.reqs.iter().any(|r| r.kind == ReqKind::Unlink && r.t0 > asked.t0);
+                                            let answered = lf.frames.iter().any(|f| f.kind == FrameKind::Synced && f.ticket > asked.t0);
+                                            if !answered && !unlinked_after && li.fail_t.is_none() && dropped_reader.is_none() && !matches!(li.spec.kind, LK::Value | LK::Map) {
+                                                out.count("sync-lost-to-early-prune-other-lane-kind");
+                                            } else if !answered && !unlinked_after && li.fail_t.is_none() && dropped_reader.is_none() {
+                                                out.violation(
+                                                    "C03",
+                                                    format!("sync-never-completed/{}/removed-before-prune-delay{}", li.spec.kind.name(), if s.reused_id { "/reattached-same-id" } else { "" }),
+                                                    "a remote that had been attached for less than the prune delay was removed for inactivity and its sync request was never answered",
+                                                    json!({"lane": lane, "attached_for_ms": idle.as_millis() as u64, "prune_ms": prune_ms}),
+                                                );
+                                            }
+                                        }
+                                    }
+                                } else {
+                                    out.count("pruned-after-delay");
+                                }
+                            }
                             // a remote that provably holds a link must not be pruned
                             if dropped_reader.is_none() {
                                 for (lane, lf) in &by_lane {
